@@ -48,19 +48,46 @@ pub fn mfilter_strategy(maxlen: usize) -> BoxedStrategy<MFilter> {
         prop::option::weighted(0.4, any_time()),
         prop::option::weighted(0.4, any_time()),
         prop::option::weighted(0.5, prop_oneof![0u32..5, Just(u32::MAX - 1), Just(u32::MAX), any::<u32>()]),
+        prop_oneof![4 => Just(0u8), 1 => 1u8..=255],
     )
-        .prop_map(|(ids, authors, kinds, letters, vals, since, until, limit)| MFilter {
-            ids,
-            authors,
-            kinds,
-            tags: letters
-                .iter()
-                .enumerate()
-                .map(|(i, l)| ((*l as char).to_string(), vals[i].clone()))
-                .collect(),
-            since,
-            until,
-            limit,
+        .prop_map(|(mut ids, mut authors, mut kinds, letters, mut vals, since, until, limit, dups)| {
+            // repeated list elements (a client that merges follow lists): next to each other or at the far end
+            if dups != 0 {
+                fn dup<T: Clone>(v: &mut Vec<T>, sel: u8) {
+                    if !v.is_empty() {
+                        let i = (sel as usize >> 2) % v.len();
+                        let x = v[i].clone();
+                        if sel & 2 == 0 {
+                            v.insert(i + 1, x);
+                        } else {
+                            v.push(x);
+                        }
+                    }
+                }
+                match dups % 4 {
+                    0 => dup(&mut ids, dups),
+                    1 => dup(&mut authors, dups),
+                    2 => dup(&mut kinds, dups),
+                    _ => {
+                        if let Some(v) = vals.iter_mut().find(|v| !v.is_empty()) {
+                            dup(v, dups);
+                        }
+                    }
+                }
+            }
+            MFilter {
+                ids,
+                authors,
+                kinds,
+                tags: letters
+                    .iter()
+                    .enumerate()
+                    .map(|(i, l)| ((*l as char).to_string(), vals[i].clone()))
+                    .collect(),
+                since,
+                until,
+                limit,
+            }
         })
         .boxed()
 }
